@@ -403,6 +403,14 @@ def c03_3(c: Ctx) -> None:
     adv = [n for n in ast.walk(w) if isinstance(n, ast.Assign) and U(n.value) == pvar and isinstance(n.targets[0], ast.Name) and n.targets[0].id in test]
     if adv:
         c.ok(where(u, adv[0]), f'walk advances: {U(adv[0])}')
+        adv_ids = {n.id for a in adv for n in g.nodes_of(a)}
+        p = search([(head, ())], is_target=lambda n, d: n is head, is_barrier=lambda n, d: n.id in adv_ids or n is head,
+                   edge_ok=lambda n, e, d: None if (e.is_exc or (n is head and e.label != 'true')) else d)
+        if p is None:
+            c.ok(where(u, w), 'every iteration that comes back to the loop test has advanced to the ancestor')
+        else:
+            c.fail(u, 'a parent-walk iteration comes back to the loop test without advancing', 'the walk stops at (or spins on) an ancestor that is already signalled: the ancestors above it are never re-checked '
+                   'and stay incomplete although their last descendant has finished', node=w, witness=c.path(head, p))
     else:
         c.fail(u, 'parent walk does not advance to the ancestor', 'only the direct parent is re-checked; grandparents never complete', node=w)
 
